@@ -1,23 +1,19 @@
 import Jrpc.Gen.Facts
 import Jrpc.Gen.Funcs
 import Jrpc.Model.Wire
+import Jrpc.Tie.Util
 /-! # Tie obligations for C09 -/
 namespace Jrpc.Tie.C09
-open Jrpc.Gen Jrpc.Gen.Facts Jrpc.GoPrelude
+open Jrpc.Gen Jrpc.Gen.Facts Jrpc.GoPrelude Jrpc.Tie
 
-def ops (field : String) : List (String × String × Bool) :=
-  (writers.filter fun s => s.field == field).map fun s => (s.fn, s.what, s.locked)
-
-/-- the callback table: an entry is added only in `pushReq` and removed only by the reply
-interception (`filterBatchLocked`) or the watcher (`waitCallback`), always under the mutex; the id
-counter is advanced only in `pushReq` -/
+/-- the callback table: one site adds an entry, two remove one (reply interception; context watcher),
+always under the mutex; the id counter is advanced at one site -/
 theorem callback_table_writers :
-    ops "s.call" = [("filterBatchLocked", "delete", true), ("pushReq", "assign", true), ("waitCallback", "delete", true)] ∧
-    ops "s.callID" = [("pushReq", "assign", true)] := by decide
+    cnt "s.call" "assign" = 1 ∧ cnt "s.call" "delete" = 2 ∧ total "s.call" = 3 ∧ allLocked "s.call" = true ∧
+    total "s.callID" = 1 ∧ allLocked "s.callID" = true := by decide
 
-/-- one watcher goroutine per callback, started in `pushReq` -/
-theorem one_watcher :
-    (goStmts.filter fun s => s.what == "s.waitCallback").map (·.fn) = ["pushReq"] := by decide
+/-- one watcher goroutine per callback -/
+theorem one_watcher : goNamed "s.waitCallback" = 1 := by decide
 
 /-- `AllowPush` is honoured as given (nil options mean no push) -/
 theorem allow_push (sNil allow : Bool) : Funcs.allowPush sNil allow = (!sNil && allow) := rfl
